@@ -52,6 +52,7 @@ theorem be32_roundtrip (v : Int) (h1 : -2147483648 ≤ v) (h2 : v < 2147483648) 
 theorem length_packStr (n : Nat) (b : List Nat) : (packStr n b).length = n := by simp [packStr]
 
 theorem length_packDflt (r : Row) (d : Dflt) : (r.packDflt d).length = r.size := length_packStr _ _
+theorem length_payload (r : Row) (a : WArgs) (s : Src) : (r.payload a s).length = r.size := length_packStr _ _
 
 /-- two fields do not overlap -/
 def FieldsDisjoint (p q : Nat × List Nat) : Prop := p.1 + p.2.length ≤ q.1 ∨ q.1 + q.2.length ≤ p.1
@@ -110,7 +111,7 @@ theorem wf_row (rows : List Row) (h : rowsWellFormed rows = true) (r : Row) (hr 
 theorem header_field_readback (table : List Row) (sets : List (String × Src)) (a : WArgs)
     (hwf : rowsWellFormed table = true) (hdj : disjointRows table = true)
     (r : Row) (hr : r ∈ table) (hp : r.isPad = false) (i : Nat) (hi : i < r.size) :
-    (headerBytes table sets a).getD (r.lo + i) 0 = (r.packDflt ((lookupSrc sets r.name).value a r)).getD i 0 := by
+    (headerBytes table sets a).getD (r.lo + i) 0 = (r.payload a (lookupSrc sets r.name)).getD i 0 := by
   have hw := wf_row table hwf r hr
   simp only [headerBytes]
   rw [slice_getD _ _ _ _ (by omega), Nat.zero_add]
@@ -120,10 +121,10 @@ theorem header_field_readback (table : List Row) (sets : List (String × Src)) (
     intro s t hs ht hst
     have h1 := wf_row table hwf s (List.mem_filter.1 hs).1
     have h2 := wf_row table hwf t (List.mem_filter.1 ht).1
-    simp only [FieldsDisjoint, length_packDflt]
+    simp only [FieldsDisjoint, length_payload]
     omega
   · exact List.mem_map.2 ⟨r, List.mem_filter.2 ⟨hr, by simp [hp]⟩, rfl⟩
-  · rw [length_packDflt]; exact hi
+  · rw [length_payload]; exact hi
 
 /-! ## flips -/
 
